@@ -1,7 +1,7 @@
 """TLC-generated stimuli: discriminant sets per repr (spec/Corpus.tla) and transition-covering
 iterator operation paths (state graph of spec/MC_IterAbs.tla).  Results are cached under
 work/stim/<spec digest>/ — they depend on the specification only, not on the code under test."""
-import os, re, json, collections
+import os, re, json, collections, functools
 from concurrent.futures import ThreadPoolExecutor
 import prim
 from tlc import atomic_dump, run_tlc, tlc_ok, printed, spec_digest, WORK, ToolError
@@ -58,6 +58,7 @@ def corpus_sets(r, maxcard=11):
     return res
 
 
+@functools.lru_cache(maxsize=None)
 def iter_graph(n):
     """state graph of the iterator contract over n items: nodes = windows (lo,hi), edges = operations.
     returns {"nodes": [[lo,hi],...], "edges": [[src_idx, op, k, dst_idx],...], "stats":...}"""
@@ -103,6 +104,7 @@ def iter_graph(n):
     return res
 
 
+@functools.lru_cache(maxsize=None)
 def covering_paths(n, start=None):
     """For the graph over n items and the start window (default: full), one path per edge reachable
     from the start: the shortest operation sequence to the edge's source, then the edge.
@@ -131,6 +133,7 @@ def covering_paths(n, start=None):
     return paths
 
 
+@functools.lru_cache(maxsize=None)
 def multi_graph(n, nslots):
     """state graph of `nslots` iterators over n items operated alternately (spec/MC_IterMulti.tla):
     nodes = tuples of windows, edges = (src, slot, op, k, dst); slots are 0-based here"""
@@ -177,6 +180,7 @@ def multi_graph(n, nslots):
     return res
 
 
+@functools.lru_cache(maxsize=None)
 def multi_paths(n, nslots):
     """one interleaving per edge of the product graph: the shortest one to the edge's source, then the edge.
     a path is a list of (slot, op, k)"""
@@ -200,6 +204,7 @@ def multi_paths(n, nslots):
     return paths
 
 
+@functools.lru_cache(maxsize=None)
 def cfg_cover(maxuser):
     """every legal configuration with at most `maxuser` user features in every combination of their modes, per shape class,
     with the outcome the resolution model predicts (spec/CfgCover.tla)"""
@@ -224,6 +229,7 @@ def cfg_cover(maxuser):
     return res
 
 
+@functools.lru_cache(maxsize=None)
 def first_ops(n, start):
     """all single operations from a start window (for range(a,b) constructors)"""
     g = iter_graph(n)
